@@ -53,7 +53,7 @@ ASSUMPTIONS = [
 PROBES = ["explicit_reseed", "explicit_reseed_zero", "cross_process_reproducibility", "history_with_abandoned_pass", "history_with_probe", "from_random_parallel", "window_with_pole", "size_multiple_of_chunk", "tail_chunk"]
 REAL_VS_STUB = dict(
     real="yaw.randoms, RandomReader, Catalog.from_random and the whole creation pipeline, numpy Generator",
-    stub="multiprocessing (sim.fakemp) for workers > 1; treecorr RNG/threads for patch_num",
+    stub="multiprocessing (sim.fakemp) for workers > 1; treecorr RNG/threads for patch_num; builtins.id (sim.identity)",
 )
 
 WINDOWS = [
